@@ -914,3 +914,12 @@ pub mod verif_hooks_cls {
         }
     }
 }
+
+#[cfg(yamaquasi_verif)]
+pub mod verif_hooks_legendre {
+    use super::*;
+    /// the private `legendre(d, p)`
+    pub fn vh_legendre(d: &Uint, p: u32) -> i32 {
+        legendre(d, p)
+    }
+}
